@@ -81,10 +81,33 @@ size_t compute_memory(const Case& c, size_t n) {
         case 3: r = 2; break;
         case 4: r = (long)Z::mk(); break;
         case 5: r = (long)Z::mk() + 1; break;
-        case 6: r = (long)(c.mem_raw % 4096); break;
-        default: r = 8 * (long)c.mem_raw; break;
+        case 6: r = (long)(c.mem_raw % (c.big ? 2000 : 4096)); break;
+        default: r = c.big ? 131072 + 4 * (long)c.mem_raw : 8 * (long)c.mem_raw; break;
         }
-    return (size_t)((long)(Z::use(x, n) + c.mem_j * Z::step(y)) + r);
+    size_t m = (size_t)((long)(Z::use(x, n) + c.mem_j * Z::step(y)) + r);
+    if (c.big) {
+        // Cost bound for big collections: if an 8-bit radix loop accepts this limit with only a few RadixSteps of
+        // head-room it ends (via multikey quicksort with no memory left) in insertion sort of the bucket that is current
+        // at that level - thousands of strings, i.e. many seconds. Follow the code's own fall-back chain and give such
+        // a loop enough levels that the bucket is small by then: 160 when buckets do not shrink geometrically, else
+        // about log_k(512) (all k^level buckets of that level fall back, total cost ~ n^2 / k^level). The stack-limited 8-bit paths with fewer levels are exercised by sort_small.
+        size_t need = c.mem_safe_only ? 160 : c.geo_k == 2 ? 9 : c.geo_k == 3 ? 6 : c.geo_k == 4 ? 5 : 3;
+        int a = own_index(c.algo, n);
+        while (a >= 0) {
+            if (m >= Z::use((unsigned)a, n) + 3 * Z::step((unsigned)a) + 1) break; // accepted by algorithm a
+            switch (a) {
+            case 2: a = 1; break;                  // CE3 -> CE2
+            case 1: a = n < 0x10000 ? 3 : 4; break; // CE2 -> CI3 (-> CI2 below 65536 strings)
+            case 4: a = 3; break;                  // CI3 -> CI2
+            default: a = -1; break;                // CE0, CI2 -> multikey quicksort
+            }
+        }
+        if (a == 0 || a == 1 || a == 3) {
+            size_t st = Z::step((unsigned)a), mp = m - Z::use((unsigned)a, n);
+            if (mp < need * st) m = Z::use((unsigned)a, n) + need * st + mp % st;
+        }
+    }
+    return m;
 }
 
 template <class SP>
